@@ -26,7 +26,7 @@ EXTENDS Naturals, Sequences, FiniteSets, TLC, SequencesExt, FiniteSetsExt
 CONSTANTS
     N,              \* number of components
     KindSet,        \* kinds explored: "plain","datasource","parser","combiner","rule","condition","point"
-    OutSet,         \* body outcomes explored: "val","none","list","skip","content","cmd","timeout","crash"
+    OutSet,         \* body outcomes explored: "val","none","falsy","list","skip","content","cmd","timeout","crash"
     ElemOutSet,     \* per-element outcomes of a parser fed a list
     MaxItems,       \* declaration items per component
     MaxGrp,         \* members per at-least-one group
@@ -69,6 +69,7 @@ Absent        == V("absent", 0, <<>>)
 NoneV         == V("none", 0, <<>>)
 SeedV(c)      == V("seed", c, <<>>)
 PlainV(c)     == V("v", c, <<>>)
+FalsyV(c)     == V("falsy", c, <<>>)     \* a real value that is false in a boolean context (0, "", [], False)
 ListV(c)      == V("list", c, [i \in 1..ListLen |-> i])
 PListV(c, xs) == V("plist", c, xs)
 RespV(c)      == V("resp", c, <<>>)
@@ -135,7 +136,7 @@ Seeded == {c \in Defined : prog[c].seeded}
 
 -----------------------------------------------------------------------------
 (* Phase 1: registering components                                         *)
-OutsOf(k) == CASE k = "rule"  -> OutSet \ {"list"}
+OutsOf(k) == CASE k = "rule"  -> OutSet \ {"list", "falsy"}
                [] k = "point" -> {"val"}
                [] OTHER       -> OutSet
 
@@ -289,6 +290,7 @@ Invoke(I, c) ==
             o  == prog[c].outc
         IN CASE o = "val"  -> Result(IF k = "rule" THEN RespV(c) ELSE PlainV(c), NoMiss, cl, {})
              [] o = "none" -> Result(IF k = "rule" THEN NoneResp ELSE NoneV, NoMiss, cl, {})
+             [] o = "falsy" -> Result(FalsyV(c), NoMiss, cl, {})
              [] o = "list" -> Result(ListV(c), NoMiss, cl, {})
              [] OTHER      -> Result(Absent, NoMiss, cl, ImplExcs(c, o))
 
@@ -392,6 +394,7 @@ NothingElsewhere ==
                     /\ e.kind = "skip" => (ss /\ e.under = e.by)
 RaisedBy(c) ==  \* hard failures the bodies of c raised, from the call log
     {<<calls[i].el, IF calls[i].el = 0 THEN prog[c].outc ELSE prog[c].eouts[calls[i].el]>> : i \in CallsOf(c)}
+    \* (outcomes "val", "none", "falsy", "list" are in this set too; only the failure kinds are looked at)
 Accounted ==
     Running => \A c \in Comp : \A r \in RaisedBy(c) :
         /\ r[2] \in HardFail => \E e \in excs : e.by = c /\ e.kind = r[2] /\ e.el = r[1] /\ e.tb
